@@ -40,6 +40,7 @@ package hedgepolicy
 // C14 (confinement): the attempts run innerFn concurrently, so innerFn must tolerate concurrent calls; the executors
 // of policies that keep per-execution state without a lock (retry) do not: see lemmaHedgeOverRetry in retrypolicy.
 //@ func (*executor).Apply$1
+//@   beforecall e.onHedge: assert [C14.user_callback_gets_copy] userCopy(callarg_0.ExecutionAttempt)
 //@   requires [C14.confinement.attempts_share_inner] reentrant(innerFn)
 //@   requires e != nil && e.hedgePolicy != nil && e.config != nil && e.BaseAbortablePolicy != nil && e.delayFunc != nil && innerFn != nil && typeis(exec, *failsafe.execution)
 //@   requires 0 <= e.maxHedges && e.maxHedges <= 1073741824
